@@ -103,8 +103,8 @@ func main() {
 			si := len(schemas)
 			schemas = append(schemas, c.T)
 			for _, route := range lib.SchRoutes(c.V) {
-				if route == "node" {
-					continue // AssignNode of a foreign node is checked separately (nodeDiffs)
+				if route == "node" && !c.T.AssignNodeSafe() {
+					continue // schemas hit by the known AssignNode defect: checked separately (nodeDiffs)
 				}
 				cases = append(cases, &caseRec{id: fmt.Sprintf("c%d.%s", i, route), si: si, level: c.Level, route: route, v: c.V})
 			}
@@ -124,7 +124,7 @@ func main() {
 					v := rng.SchValue(t, level, mut)
 					var routes []string
 					for _, r := range lib.SchRoutes(v) {
-						if r != "node" {
+						if r != "node" || t.AssignNodeSafe() {
 							routes = append(routes, r)
 						}
 					}
